@@ -6,7 +6,7 @@ From ASModel Require Import Base Tokens Report Ast.
 (* identifiers the expansion introduces *)
 Inductive name :=
 | NElem (i : nat) | NTupleElem (i : nat)
-| NMapValue | NSetElem | NSetIdx | NSetColl | NSetPred (i : nat) | NSetPreds
+| NMapValue | NSetElem | NSetIdx | NSetSrc | NSetColl | NSetPred (i : nat) | NSetPreds
 | NReport | NTmp | NActual | NRe.
 
 (* value expressions: what a generator splices in as "the value to test" *)
@@ -51,7 +51,7 @@ Inductive stmt :=
 | SStruct (sp : span) (e : vexpr) (path : rpath) (fields : list field_name) (rest : bool) (body : list stmt) (p : push)
 | SSeq (body : list stmt)
 | STuple (e : vexpr) (binders : list (option nat)) (body : list stmt)
-| SRange (sp : span) (e : vexpr) (range : list tok) (p : push)
+| SRange (sp : span) (e : vexpr) (range : list tok) (parts : option (option uexpr * bool * option uexpr)) (p : push)
 | SSlice (e : vexpr) (parts : list slice_part) (body : list stmt) (p : push)
 | SRegex (sp : span) (e : vexpr) (pattern : string) (p : push)
 | SLike (sp : span) (e : vexpr) (expr : uexpr) (p : push)
